@@ -6,11 +6,16 @@ Output: "#case" lines are echoed; one model line per operation.
 -/
 import LA.Drive.Lnk
 import LA.Drive.ReadAhead
+import LA.Drive.ReadObs
 open LA
 
 def engines : List (String × Engine) := [
   ("lnk", LA.Lnk.engine),
-  ("rda", LA.RA.engine)
+  ("rda", LA.RA.engine),
+  ("part", LA.ReadObs.enginePart),
+  ("cons", LA.ReadObs.engineCons),
+  ("trunc", LA.ReadObs.engineTrunc),
+  ("rd", LA.ReadObs.engineRd)
 ]
 
 partial def loop (e : Engine) (h : IO.FS.Stream) (out : IO.FS.Stream) (s : e.σ) : IO Unit := do
